@@ -549,7 +549,8 @@ class C10(Property):
         (S + "features/domain.py", "Domain.to_biopython"), (S + "features/domain.py", "Domain.from_biopython"),
         (S + "features/antismash_domain.py", "AntismashDomain.from_biopython"),
         (S + "features/pfam_domain.py", "PFAMDomain.to_biopython"), (S + "features/pfam_domain.py", "PFAMDomain.from_biopython"),
-        (S + "features/cds_motif.py", "CDSMotif.from_biopython"),
+        (S + "features/cds_motif.py", "CDSMotif.from_biopython"), (S + "features/cds_motif.py", "ExternalCDSMotif.__init__"),
+        (S + "features/cds_motif.py", "ExternalCDSMotif.from_biopython"), (S + "features/cds_motif.py", "ExternalCDSMotif.to_biopython"),
         (S + "features/prepeptide.py", "Prepeptide.to_biopython"), (S + "features/prepeptide.py", "Prepeptide.from_biopython"),
         (S + "features/prepeptide.py", "_combine_sections"),   # exists once fixes/D107 is applied ("missing" before)
         (S + "features/module.py", "Module.to_biopython"), (S + "features/module.py", "Module.from_biopython"),
@@ -734,6 +735,21 @@ class C10(Property):
                     case["input"].append({"type": kind, "loc": compound(parts), "quals": [["note", ["across the origin"]]]})
                 else:
                     case["generics"].append({"type": kind, "loc": compound(parts), "notes": ["made by antiSMASH across the origin"]})
+        # CDS_motif features of another tool (no aSTool qualifier): kept as ExternalCDSMotif with their own qualifiers
+        for i in range(rng.choice([0, 0, 1, 2])):
+            lo = rng.randrange(0, max(1, n - 12))
+            quals = [["note", ["motif found by another tool"]]]
+            if rng.random() < 0.7:
+                quals.append(["locus_tag", [f"extmotif{i}"]])
+            if rng.random() < 0.3:
+                quals += [["protein_start", ["5"]], ["protein_end", ["9"]]]
+            if rng.random() < 0.4:
+                quals.append(["custom_key", ["x", "y"]])
+            if rng.random() < 0.3:
+                quals.append(["label", ["their_label"]])
+            rng.shuffle(quals)
+            case["input"].append({"type": "CDS_motif", "loc": simple(lo, min(n, lo + rng.choice([6, 9, 12])), rng.choice([1, -1])),
+                                  "quals": quals})
         rng.shuffle(case["input"])
         # ---- annotations added by the pipeline
         for name, total, gloc in names:
@@ -1509,6 +1525,13 @@ class C10(Property):
 
     # ---- whole PFAM_domain / aSModule features through the real classes vs Pfam / ModF (Model/SerialQual, SerialModule)
     def feat_cases(self, rng: random.Random, deep: bool) -> Iterator[Dict[str, Any]]:
+        pool = [["note", ["motif found by another tool"]], ["locus_tag", ["extmotif1"]], ["protein_start", ["5"]], ["protein_end", ["9"]],
+                ["custom_key", ["x", "y"]], ["label", ["their_label"]], ["database", ["their db"]], ["translation", ["MAG"]],
+                ["zz_last", ["1"]], ["aSDomain", ["their name"]]]
+        for _ in range(600 if deep else 100):
+            lo = rng.randrange(0, 200)
+            yield {"f": "feat", "kind": "extmotif", "loc": simple(lo, lo + 9, rng.choice([1, -1])),
+                   "quals": rng.sample(pool, rng.randint(0, 5))}
         terms = [["GO:0009055", "electron transfer activity"], ["GO:0016491", "oxidoreductase activity"], ["GO:0016020", "membrane"]]
         for i in range(1500 if deep else 240):
             strand = rng.choice([1, -1])
@@ -1537,6 +1560,18 @@ class C10(Property):
     @classmethod
     def observe_feat(cls, case: Dict[str, Any]) -> Dict[str, Any]:
         from Bio.SeqFeature import SeqFeature
+        if case["kind"] == "extmotif":
+            from antismash.common.secmet.features import CDSMotif
+            from antismash.common.secmet.features.cds_motif import ExternalCDSMotif
+            bio = SeqFeature(common.make_location(case["loc"]), type="CDS_motif", qualifiers={k: list(v) for k, v in case["quals"]})
+            motif = CDSMotif.from_biopython(bio)
+            assert isinstance(motif, ExternalCDSMotif)
+            written = CDSMotif.to_biopython(motif)[0]          # what the parent classes write
+            out = motif.to_biopython()[0]
+            back = CDSMotif.from_biopython(SeqFeature(out.location, type=out.type, qualifiers={k: list(v) for k, v in out.qualifiers.items()}))
+            return {"written": qlist(written.qualifiers), "original": qlist(motif.original_qualifiers), "quals": qlist(out.qualifiers),
+                    "again": qlist(back.to_biopython()[0].qualifiers),
+                    "orig_back": qlist(back.original_qualifiers)}
         from antismash.common.secmet.features import AntismashDomain, Module, PFAMDomain
         from antismash.common.secmet.locations import FeatureLocation
         from antismash.common.secmet.qualifiers import GOQualifier
@@ -1611,6 +1646,15 @@ class C10(Property):
 
     def judge_feat(self, case: Dict[str, Any], obs: Dict[str, Any], drv: Dict[str, Any]) -> Judgement:
         tags = ["feat:" + case["kind"]]
+        if case["kind"] == "extmotif":
+            corr = drv["quals"] == obs["quals"]
+            bad = []
+            if sorted(obs["orig_back"]) != sorted(obs["original"]):
+                bad.append(f"original qualifiers {obs['original']} came back as {obs['orig_back']}")
+            if obs["again"] != obs["quals"]:
+                bad.append(f"second write {obs['again']} differs from the first {obs['quals']}")
+            return Judgement(corr, not bad, nontrivial=True, tags=tuple(tags),
+                             detail="; ".join(bad + ([] if corr else [f"written: model {drv['quals']} vs implementation {obs['quals']}"]))[:1200])
         if "err" in obs:
             return Judgement(True, True, in_scope=False, tags=tuple(tags + ["not-built:" + obs["err"]]))
 
@@ -1747,6 +1791,8 @@ class C10(Property):
     def driver_line(self, case: Dict[str, Any], obs: Dict[str, Any]) -> Optional[Dict[str, Any]]:
         if case["f"] == "prepeptide":
             return dict(case, re=obs.get("re"))
+        if case["f"] == "feat" and case["kind"] == "extmotif":
+            return {"f": "feat", "kind": "extmotif", "written": obs["written"], "original": obs["original"]}
         if case["f"] == "feat":
             if "state" not in obs:
                 return None
@@ -1865,16 +1911,24 @@ class C10(Property):
         tags = ["circular" if state["circ"] else "linear"]
         # ---- correspondence: first write, re-read state, second write
         problems = []
-        w1 = drv["w1"].get("ok")
-        real_w1 = modelled_bios(obs["w1"], state["pre_locs"])
+        def ext_sorted(bios: Any) -> Any:
+            """an external CDS_motif is one opaque feature to the record model, which writes dictionaries key-sorted; the
+            real ExternalCDSMotif re-appends its original qualifiers after the placeholders are dropped (their order is
+            modelled by `extWrite` in Model/SerialQual.lean, not by the record model)"""
+            if not isinstance(bios, list):
+                return bios
+            return [dict(b, quals=sorted(b["quals"], key=lambda q: q[0]))
+                    if b["type"] == "CDS_motif" and not any(q[0] == "aSTool" for q in b["quals"]) else b for b in bios]
+        w1 = ext_sorted(drv["w1"].get("ok"))
+        real_w1 = ext_sorted(modelled_bios(obs["w1"], state["pre_locs"]))
         if w1 != real_w1:
             problems.append("first write: " + _list_diff(w1, real_w1, drv["w1"]))
         r1 = drv["r1"].get("ok")
         real_r1 = for_model(obs["re_json"])
         if r1 is None or canon_state(r1) != canon_state(real_r1):
             problems.append("re-read state: " + _state_diff(r1, real_r1, drv["r1"]))
-        w2 = drv["w2"].get("ok")
-        real_w2 = modelled_bios(obs["w2"], obs["re_json"]["pre_locs"])
+        w2 = ext_sorted(drv["w2"].get("ok"))
+        real_w2 = ext_sorted(modelled_bios(obs["w2"], obs["re_json"]["pre_locs"]))
         if w2 != real_w2:
             problems.append("second write: " + _list_diff(w2, real_w2, drv["w2"]))
         if drv["cores"] != [c["coreloc"] for c in state["cands"]]:
